@@ -159,6 +159,7 @@ def _inline_at(F, b, g):
             F.setdefault("debug", []).append({"name": d["name"], "place": _shift_place(d["place"], L)})
     # parameter passing
     pre = F["blocks"][b]["stmts"]
+    refs = None
     if g.get("defkind") == "Closure" and len(term["args"]) == 2 and g.get("arg_count", 0) >= 1:
         # direct call of a closure: (environment, tuple of arguments); the body takes the tuple's fields as separate parameters
         pre.append({"k": "assign", "p": {"l": L + 1}, "r": {"k": "use", "a": term["args"][0]}, "sp": sp, "inl": True})
@@ -183,6 +184,7 @@ def _inline_at(F, b, g):
         caps = None
         for i, a in enumerate(term["args"]):
             pre.append({"k": "assign", "p": {"l": L + 1 + i}, "r": {"k": "use", "a": a}, "sp": sp, "inl": True})
+        refs = _ref_params(F, g, term["args"])
     dest, cont, unwind = term["dest"], term.get("t"), term.get("unwind")
     F["blocks"][b]["term"] = {"k": "goto", "t": NB, "sp": sp}
     for blk in g["blocks"]:
@@ -199,7 +201,74 @@ def _inline_at(F, b, g):
         if caps is not None:
             # what the closure captured is written where the body reads its environment, as if the body stood at the call
             nb = _subst_env(nb, L + 1, caps[0], caps[1])
+        elif refs:
+            # `(*param).x` is the caller's `place.x` where the argument was `&place` / `&mut place`
+            nb = _subst_refs(nb, {L + 1 + i: q for i, q in refs.items()})
         F["blocks"].append(nb)
+
+
+def _own_addr_taken_mut(F, l):
+    """`&mut l` itself (a reborrow `&mut *l` leaves l alone)"""
+    for blk in F["blocks"]:
+        for st in blk["stmts"]:
+            r = st.get("r", {})
+            if r.get("k") in ("ref", "rawptr") and r.get("p", {}).get("l") == l and r.get("bk") != "shared" \
+                    and not (r["p"].get("pr") and r["p"]["pr"][0] == "*"):
+                return True
+    return False
+
+
+def _repointed(F, l):
+    """writes of local l itself (not of what it points to)"""
+    return [w for w in _writes(F, l) if not (w.get("k") == "assign" and w["p"].get("pr") and w["p"]["pr"][0] == "*")]
+
+
+def _ref_params(F, g, args):
+    """{parameter index: place} for the reference parameters of an inlined function whose argument is `&place` / `&mut place` of
+    a place that stays put while the body runs (fields / derefs below a local of the caller that is assigned at most once and is never
+    re-pointed), the parameter itself being never assigned in the callee"""
+    out = {}
+    nparams = F.get("arg_count") or 0
+    for i, a in enumerate(args):
+        p = a.get("p")
+        if p is None or p.get("pr"):
+            continue
+        gl = 1 + i
+        if gl >= len(g["locals"]) or not str(g["locals"][gl].get("ty", "")).startswith("&"):
+            continue
+        if _repointed(g, gl) or _own_addr_taken_mut(g, gl):
+            continue
+        r = _sole_def(F, p["l"])
+        if r is not None and r.get("k") == "ref":
+            q = r["p"]
+        elif 1 <= p["l"] <= nparams and not _repointed(F, p["l"]):
+            q = {"l": p["l"], "pr": ["*"]}
+        else:
+            continue
+        if any(not (e == "*" or (isinstance(e, dict) and "f" in e)) for e in q.get("pr", [])):
+            continue
+        base = q["l"]
+        if len(_repointed(F, base)) > (0 if 1 <= base <= nparams else 1):
+            continue
+        out[i] = q
+    return out
+
+
+def _subst_refs(node, table):
+    if isinstance(node, dict):
+        if "l" in node and isinstance(node["l"], int) and set(node) <= {"l", "pr"}:
+            pr = node.get("pr", [])
+            if node["l"] in table and pr and pr[0] == "*":
+                q = table[node["l"]]
+                out = {"l": q["l"], "pr": list(q.get("pr", [])) + list(pr[1:])}
+                if not out["pr"]:
+                    out.pop("pr")
+                return out
+            return node
+        return {k: _subst_refs(v, table) for k, v in node.items()}
+    if isinstance(node, list):
+        return [_subst_refs(v, table) for v in node]
+    return node
 
 
 def _mentions(node, g):
@@ -412,10 +481,14 @@ def inline_new(dicts):
     lowered = lower_combinators(fns, new)
     if lowered:
         done["<combinators written out as matches>"] = lowered
+    # a new closure that is only ever handed on (never called directly) is inlined nowhere: it is a body in its own right, and helpers
+    # extracted from it are inlined into it like into any known function
+    called = {_callee(blk["term"]) for F in fns.values() for blk in F.get("blocks", []) if blk["term"].get("k") == "call"}
+    standalone = {n for n in new if fns[n].get("defkind") == "Closure" and n not in called}
     for _ in range(MAX_ROUNDS):
         changed = False
         for name, F in fns.items():
-            if F.get("bkind") not in ("fn",) or name in new:
+            if F.get("bkind") not in ("fn",) or (name in new and name not in standalone):
                 continue
             b = 0
             while b < len(F["blocks"]):
